@@ -863,6 +863,8 @@ def run(ctx):
     rule_clean_errors(ctx)
     rule_buffer_lifetime(ctx, px)
     rule_error_sentinel(ctx, px)
+    from .common import rule_iterator_reraises
+    rule_iterator_reraises(ctx, "clean-errors")
     from .common import rule_instance_state
     rule_instance_state(ctx, ("aiokafka.record.",))
     rep.nd("behaviour inside zlib / snappy / lz4 / zstd and CPython's allocator")
